@@ -13,6 +13,7 @@ RULE = ('every item sequence up to the length bound over 3 predicate classes who
         'group_by with every interleaving of two keys, nested in roll and in split, and on every well-formed raw-mux event '
         'sequence (empty keys, key reuse). Output and segment lifetimes at the head of the inner pipeline are compared with '
         'itertools.groupby on the predicate value. Non-trivial = at least two segments.')
+DEEP_PROBES = ('predicate values with equal hashes, prefix-related tuples, falsy values, items that are == but distinguishable; 20 / 150 live groups')
 ASSUMPTIONS = ['predicates are total and pure; predicate values are hashable and compared with != only',
                'lengths and number of classes beyond the bound are not covered']
 LEVEL_TEXT = ('Bounded-exhaustive model checking of the real split operator against the maximal-runs definition over all '
